@@ -354,7 +354,40 @@ func oracle(w *world, res result) [][2]string {
 	if anyRemoteKO && enriched && res.err == nil {
 		bad("remote-error-swallowed", "QueryRemoteMatcher failed, yet EnrichedMatch returned a report and a nil error")
 	}
-	if enriched {
+	if enriched && sc.cancelAtEnricher > 0 {
+		// cancelled during enrichment: whatever came back must stem from an
+		// enricher that succeeded, and every enricher that ran saw the finished report
+		want := map[string]map[string]int{}
+		for i, e := range sc.enrichers {
+			if e.fail || !w.enrichRan[i] {
+				continue
+			}
+			k := strconv.Itoa(e.kind)
+			if want[k] == nil {
+				want[k] = map[string]int{}
+			}
+			for _, m := range e.msgs {
+				if e.sees {
+					m += 1000 * len(vr.Vulnerabilities)
+				}
+				want[k][strconv.Itoa(m)]++
+			}
+		}
+		for k, ms := range vr.Enrichments {
+			for _, m := range ms {
+				if want[k][string(m)] == 0 {
+					bad("", "enrichment-message-nobody-produced kind=%s msg=%s", k, string(m))
+				} else {
+					want[k][string(m)]--
+				}
+			}
+		}
+		for i := range sc.enrichers {
+			if w.enrichRan[i] && (w.seenVulns[i] != len(vr.Vulnerabilities) || w.seenPkgs[i] != len(vr.PackageVulnerabilities)) {
+				bad("", "enricher-%d-saw-an-unfinished-report vulns=%d/%d", i, w.seenVulns[i], len(vr.Vulnerabilities))
+			}
+		}
+	} else if enriched {
 		// enrichers ran on the finished report
 		for i := range sc.enrichers {
 			if w.enrichRan[i] && (w.seenVulns[i] != len(vr.Vulnerabilities) || w.seenPkgs[i] != len(vr.PackageVulnerabilities)) {
@@ -472,6 +505,52 @@ func classify(r *hx.Run, sc *scenario, w *world, res result, obs string) {
 		if n > 1 {
 			r.Count("package:several-environments")
 			break
+		}
+	}
+}
+
+// runCancelDuringEnrichment: oracle-only scenarios in which an enricher
+// cancels the caller's Context. Either an error or a report may come back
+// (the workers' select chooses); the call must return, leak nothing, and a
+// report must hold the complete vulnerabilities and only genuine messages.
+func runCancelDuringEnrichment(r *hx.Run, rnd *hx.Rand, sc *scenario) {
+	sc.ctx = "live"
+	if sc.api == "match" {
+		sc.api = "enriched"
+	}
+	for i := range sc.matchers {
+		m := &sc.matchers[i]
+		m.cancel = false
+		var q []int
+		for _, c := range m.q {
+			if c != cCancelParent {
+				q = append(q, c)
+			}
+		}
+		m.q = q
+	}
+	if len(sc.enrichers) == 0 {
+		sc.enrichers = []enricherS{{kind: 1, msgs: []int{1}}, {kind: 2, msgs: []int{2, 3}}, {kind: 1, msgs: []int{4}}}
+	}
+	sc.cancelAtEnricher = 1 + rnd.Intn(len(sc.enrichers))
+	for _, p := range []int{1 + rnd.Intn(3), 1 + rnd.Intn(16)} {
+		if tooManyHangs() {
+			return
+		}
+		w := newWorld(sc, rnd.Fork())
+		key := fmt.Sprintf("cancel-at-enricher=%d gomaxprocs=%d scenario=[%s]", sc.cancelAtEnricher-1, p, strings.Join(sc.lines("")[1:], " | "))
+		inflight(key)
+		res := call(w, p)
+		r.Case(key, true)
+		switch {
+		case res.hang:
+		case res.err != nil:
+			r.Count("cancel-during-enrichment:error")
+		default:
+			r.Count("cancel-during-enrichment:report")
+		}
+		for _, f := range oracle(w, res) {
+			r.Fail(f[0], f[1]+" "+key)
 		}
 	}
 }
